@@ -39,9 +39,12 @@ MinSevArg == SevFlags \cup {"UNSET"}                       \* value given to --m
 \*   syntax : the rule's expr does not parse (always Fatal); c selects one of three broken expressions
 \*   owner  : the rule has no owner comment and the run uses --require-owner (always Bug); every other
 \*            rule carries `# pint rule/owner`. The flag is given iff the case holds such a problem.
-Kinds     == {"report", "label", "syntax", "owner"}
+\*   twin   : two label blocks hit the same rule with the same message: a generic one (Warning) and a strict
+\*            one (label "t<c>" { required = true value = "x.*" severity = <sev> }): two problems on one rule
+\*            that differ in severity only (one problem when <sev> is warning: equal reports are merged)
+Kinds     == {"report", "label", "syntax", "owner", "twin"}
 Comments  == 1..3
-ReportReq == [kind : {"report", "label"}, sev : SevFlags, c : Comments]
+ReportReq == [kind : {"report", "label", "twin"}, sev : SevFlags, c : Comments]
              \cup [kind : {"syntax"}, sev : {"fatal"}, c : Comments]
              \cup [kind : {"owner"}, sev : {"bug"}, c : {1}]
 
@@ -64,22 +67,32 @@ ParseSeverity(str) ==
 FlagValue(arg, dflt) == IF arg = "UNSET" THEN dflt ELSE arg
 
 (* Impl: what checkRules / verifyOwners leave in the summary for the requested problems. *)
-\* One Report per requested problem; rule k occupies lines 3k-2..3k of the single rule file.
-Reporter(kind) == CASE kind = "report" -> "rule/report" [] kind = "label" -> "rule/label"
+\* One Report per produced problem; rule k occupies lines 3k-2..3k of the single rule file.
+Reporter(kind) == CASE kind = "report" -> "rule/report" [] kind \in {"label", "twin"} -> "rule/label"
                     [] kind = "owner" -> "rule/owner" [] OTHER -> "promql/syntax"
-MkReport(req, k) ==
-  [rule |-> k, line |-> 3 * k - 1,
-   sev  |-> ParseSeverity(req.sev).sev,       \* ReportSettings.getSeverity / AnnotationSettings.getSeverity
-   reporter |-> Reporter(req.kind),
-   msg  |-> req.c,                             \* diagnostics message (comment text / label name / parser error)
+Rep(k, sev, reporter, c) ==
+  [rule |-> k, line |-> 3 * k - 1, sev |-> sev, reporter |-> reporter,
+   msg  |-> c,                                 \* diagnostics message (comment text / label name / parser error)
    isDup |-> FALSE, dups |-> {}]
+\* severity: ReportSettings.getSeverity / AnnotationSettings.getSeverity = ParseSeverity with the error dropped
+MkReports(req, k) ==
+  IF req.kind = "twin"
+  THEN <<Rep(k, Warning, "rule/label", req.c), Rep(k, ParseSeverity(req.sev).sev, "rule/label", req.c)>>
+  ELSE <<Rep(k, ParseSeverity(req.sev).sev, Reporter(req.kind), req.c)>>
 
 (* Impl: internal/reporter/reporter.go                                      *)
+\* Report.isEqual: same path, owner, lines, rule, reporter, summary, diagnostics and severity
+IsEqual(a, b) == a.rule = b.rule /\ a.reporter = b.reporter /\ a.msg = b.msg /\ a.sev = b.sev
+\* Summary.Report(reps...): append unless hasReport
+SummaryReport(s, r) == IF \E x \in 1..Len(s) : IsEqual(s[x], r) THEN s ELSE Append(s, r)
+RECURSIVE ReportAll(_, _, _)
+ReportAll(s, rs, k) == IF k > Len(rs) THEN s ELSE ReportAll(SummaryReport(s, rs[k]), rs, k + 1)
+
 \* isSameIssue: same reporter, summary (a function of the reporter here), severity, diagnostic messages
 IsSameIssue(a, b) == a.reporter = b.reporter /\ a.sev = b.sev /\ a.msg = b.msg
 
-\* SortReports: path, Lines.First, Lines.Last, Severity, Reporter, Summary, Diagnostics. One file and one
-\* problem per rule: Lines.First decides.
+\* SortReports: path, Lines.First, Lines.Last, Severity, Reporter, Summary, Diagnostics. One file; problems of
+\* different rules differ in Lines.First, the two problems of a twin differ in Severity.
 SortKeyLess(a, b) == a.line < b.line \/ (a.line = b.line /\ a.sev < b.sev)
 IsSorted(s) == \A x, y \in 1..Len(s) : x < y => ~SortKeyLess(s[y], s[x])
 Perms(n) == {p \in [1..n -> 1..n] : \A x, y \in 1..n : x # y => p[x] # p[y]}
@@ -119,7 +132,7 @@ ConsoleShown(s, minSeverity, showDuplicates) ==
                       ELSE Walk(k + 1)
   IN Walk(1)
 \* JSONReporter.Submit: every report, in summary order
-JsonOut(s) == [k \in 1..Len(s) |-> [rule |-> s[k].rule, sev |-> SevString(s[k].sev)]]
+JsonOut(s) == [k \in 1..Len(s) |-> [rule |-> s[k].rule, sev |-> SevString(s[k].sev), reporter |-> s[k].reporter]]
 
 (* Impl: the loops deciding the exit status                                 *)
 \* lint.go:  for s, c := range bySeverity { if s >= failOn { failProblems += c } ... }
@@ -135,15 +148,15 @@ ExitOf(failed) == IF failed THEN 1 ELSE 0
 
 -----------------------------------------------------------------------------
 (* Impl: the two actions as pure compositions (used by JUDGE and by         *)
-(* Inv_FoldAgrees); `arr` is the order in which checkRules collected the    *)
-(* reports.                                                                 *)
+(* Inv_FoldAgrees); `arr` is the order in which the reports reach           *)
+(* Summary.Report (scan results, then verifyOwners).                        *)
 NoOut == [written |-> FALSE, json |-> <<>>, shown |-> <<>>]
 LintRun(c, arr) ==
   LET minP  == ParseSeverity(FlagValue(c.minSev, "warning"))
       failP == ParseSeverity(FlagValue(c.failOn, "bug")) IN
   IF minP.err  THEN [exit |-> 1, why |-> "invalid --min-severity"] @@ NoOut
   ELSE IF failP.err THEN [exit |-> 1, why |-> "invalid --fail-on"] @@ NoOut
-  ELSE LET s  == Dedup(SortReports(arr))
+  ELSE LET s  == Dedup(SortReports(ReportAll(<<>>, arr, 1)))
            by == CountBySeverity(s)
            n  == LintFailProblems(by, failP.sev) IN
        [exit |-> ExitOf(n > 0), why |-> IF n > 0 THEN "found problems" ELSE "ok",
@@ -151,17 +164,20 @@ LintRun(c, arr) ==
 CIRun(c, arr) ==
   LET failP == ParseSeverity(FlagValue(c.failOn, "bug")) IN
   IF failP.err THEN [exit |-> 1, why |-> "invalid --fail-on"] @@ NoOut
-  ELSE LET found == CIProblemsFound(CountBySeverity(arr), failP.sev)   \* counted before sort/dedup
-           s     == Dedup(SortReports(arr)) IN
+  ELSE LET s0    == ReportAll(<<>>, arr, 1)
+           found == CIProblemsFound(CountBySeverity(s0), failP.sev)    \* counted before sort/dedup
+           s     == Dedup(SortReports(s0)) IN
        [exit |-> ExitOf(found), why |-> IF found THEN "problems found" ELSE "ok",
         written |-> TRUE, json |-> JsonOut(s), shown |-> ConsoleShown(s, Information, c.showDup)]
-AllReports(c) == [k \in 1..Len(c.reports) |-> MkReport(c.reports[k], k)]
+RECURSIVE AllFrom(_, _)
+AllFrom(c, k) == IF k > Len(c.reports) THEN <<>> ELSE MkReports(c.reports[k], k) \o AllFrom(c, k + 1)
+AllReports(c) == AllFrom(c, 1)
 RECURSIVE PickSeq(_, _, _)
 PickSeq(s, keep, k) == IF k > Len(s) THEN <<>>
                          ELSE (IF keep[k] THEN <<s[k]>> ELSE <<>>) \o PickSeq(s, keep, k + 1)
 \* reports produced by the checks (scan workers) and by verifyOwners (appended afterwards, in entry order)
-ReportsOf(c)   == PickSeq(AllReports(c), [k \in 1..Len(c.reports) |-> c.reports[k].kind # "owner"], 1)
-OwnerReports(c) == PickSeq(AllReports(c), [k \in 1..Len(c.reports) |-> c.reports[k].kind = "owner"], 1)
+ReportsOf(c)   == LET a == AllReports(c) IN PickSeq(a, [k \in 1..Len(a) |-> a[k].reporter # "rule/owner"], 1)
+OwnerReports(c) == LET a == AllReports(c) IN PickSeq(a, [k \in 1..Len(a) |-> a[k].reporter = "rule/owner"], 1)
 RequireOwner(c) == \E k \in 1..Len(c.reports) : c.reports[k].kind = "owner"
 ImplRun(c) == IF c.cmd = "lint" THEN LintRun(c, ReportsOf(c) \o OwnerReports(c))
                                 ELSE CIRun(c, ReportsOf(c) \o OwnerReports(c))
@@ -179,7 +195,15 @@ DocSevOfReq(req) == IF req.kind = "syntax" THEN "Fatal" ELSE IF req.kind = "owne
 \* the run must fail iff some reported severity reaches the threshold; an unusable flag value is an error
 DocFails(failOn, sevNames) == \E n \in sevNames : DocRank(n) >= DocRank(DocThreshold(failOn))
 DocMustFail(failOn, sevNames) == IF DocFlagValid(failOn) THEN DocFails(failOn, sevNames) ELSE TRUE
-DocSevNames(c) == {DocSevOfReq(c.reports[k]) : k \in 1..Len(c.reports)}
+\* the problems a case is documented to report: one per rule, two for a twin (the generic Warning and the
+\* strict one) unless both are the very same problem; named by the check that reports them
+DocReporter(req) == CASE req.kind = "report" -> "rule/report" [] req.kind = "syntax" -> "promql/syntax"
+                      [] req.kind = "owner" -> "rule/owner" [] OTHER -> "rule/label"
+DocProblems(req, k) ==
+  {[rule |-> k, sev |-> DocSevOfReq(req), reporter |-> DocReporter(req)]}
+  \cup (IF req.kind = "twin" THEN {[rule |-> k, sev |-> "Warning", reporter |-> "rule/label"]} ELSE {})
+DocProblemSet(c) == UNION {DocProblems(c.reports[k], k) : k \in 1..Len(c.reports)}
+DocSevNames(c) == {e.sev : e \in DocProblemSet(c)}
 
 -----------------------------------------------------------------------------
 (* State machine                                                            *)
@@ -198,9 +222,12 @@ Init ==
 
 \* GEN: one more rule with one problem. Comment/label numbers are introduced in order (c <= 1 + max used),
 \* which removes renamings of the same duplicate structure.
+HasTwin(rs) == \E k \in 1..Len(rs) : rs[k].kind = "twin"
 AddReport(r) ==
   /\ pc = "Args" /\ Len(case.reports) < MaxReports
   /\ r.c <= 1 + Cardinality({case.reports[k].c : k \in 1..Len(case.reports)})
+  \* a twin comes with at most one other rule (keeps the number of arrival orders small)
+  /\ (r.kind = "twin" \/ HasTwin(case.reports)) => (Len(case.reports) <= 1 /\ ~(r.kind = "twin" /\ HasTwin(case.reports)))
   /\ case' = [case EXCEPT !.reports = Append(@, r)]
   /\ UNCHANGED <<pc, summary, minSeverity, failOn, failed, out>>
 
@@ -210,14 +237,14 @@ Start == /\ pc = "Args" /\ pc' = "CheckRules"
 \* checkRules: the workers deliver the reports in any order
 CheckRules(p) ==
   /\ pc = "CheckRules" /\ ~GenOnly
-  /\ LET rs == ReportsOf(case) IN summary' = [k \in 1..Len(rs) |-> rs[p[k]]]
+  /\ LET rs == ReportsOf(case) IN summary' = ReportAll(<<>>, [k \in 1..Len(rs) |-> rs[p[k]]], 1)
   /\ pc' = "VerifyOwners"
   /\ UNCHANGED <<case, minSeverity, failOn, failed, out>>
 
 \* if c.Bool(requireOwnerFlag) { summary.Report(verifyOwners(entries, allowedOwners)...) }
 VerifyOwners ==
   /\ pc = "VerifyOwners"
-  /\ summary' = IF RequireOwner(case) THEN summary \o OwnerReports(case) ELSE summary
+  /\ summary' = IF RequireOwner(case) THEN ReportAll(summary, OwnerReports(case), 1) ELSE summary
   /\ pc' = IF case.cmd = "lint" THEN "ParseMinSeverity" ELSE "ParseFailOn"
   /\ UNCHANGED <<case, minSeverity, failOn, failed, out>>
 
@@ -281,18 +308,20 @@ Inv_FoldAgrees == pc = "Done" =>
 \* --min-severity and duplicate folding act on the display only: the JSON report always lists every
 \* requested problem with its documented severity (this is also what binds EXEC cases to the model)
 Inv_JsonComplete == (pc = "Done" /\ out.written) =>
-  out.json = [k \in 1..Len(case.reports) |-> [rule |-> k, sev |-> DocSevOfReq(case.reports[k])]]
+  /\ {out.json[x] : x \in 1..Len(out.json)} = DocProblemSet(case)
+  /\ Len(out.json) = Cardinality(DocProblemSet(case))
 
 \* what is displayed is what the documentation of --min-severity / --show-duplicates describes
 Inv_Display == (pc = "Done" /\ out.written) =>
   LET minName == IF case.cmd = "ci" THEN "Information"
-                 ELSE IF case.minSev = "UNSET" THEN "Warning" ELSE DocSevOfFlag(case.minSev) IN
+                 ELSE IF case.minSev = "UNSET" THEN "Warning" ELSE DocSevOfFlag(case.minSev)
+      visible == {e \in DocProblemSet(case) : DocRank(e.sev) >= DocRank(minName)} IN
   /\ \A x \in 1..Len(out.shown) : DocRank(out.shown[x].sev) >= DocRank(minName)
-  /\ case.showDup => {out.shown[x].rule : x \in 1..Len(out.shown)}
-                     = {k \in 1..Len(case.reports) : DocRank(DocSevOfReq(case.reports[k])) >= DocRank(minName)}
+  /\ case.showDup => {[rule |-> out.shown[x].rule, sev |-> out.shown[x].sev] : x \in 1..Len(out.shown)}
+                     = {[rule |-> e.rule, sev |-> e.sev] : e \in visible}
   /\ ~case.showDup => \* every visible problem is shown once, the rest are counted as its duplicates
        Len(out.shown) + SumOver([x \in 1..Len(out.shown) |-> out.shown[x].dups], 1..Len(out.shown))
-       = Cardinality({k \in 1..Len(case.reports) : DocRank(DocSevOfReq(case.reports[k])) >= DocRank(minName)})
+       = Cardinality(visible)
 
 \* GEN: one case per distinct choice of inputs, emitted when the inputs are complete
 EmitCase == pc # "CheckRules" \/ PrintT(<<"CASE", ToJson(case)>>)
